@@ -85,6 +85,10 @@ def raisesL (r : Except LErr H) (e : LErr) : Bool :=
 def rejects (r : Except MS.Err MS.St) (e : MS.Err) : Bool :=
   match r with | .ok _ => false | .error e' => e' == e
 
+/-- the securiCAD loader returned a model (not `None`) that satisfies `p` -/
+def loadsWithO (r : Except LErr (Option H)) (p : H → Bool) : Bool :=
+  match r with | .ok (some s) => p s | _ => false
+
 theorem raisesL_eq {r : Except LErr H} {e : LErr} (h : raisesL r e = true) : r = .error e := by
   cases r with
   | ok s => cases h
